@@ -224,6 +224,13 @@ def evalArgs : List Expr → Env → Heap → Except Err (List Val × Env × Hea
       | .error e => .error e
       | .ok (vs, ρ2, h2) => .ok (v :: vs, ρ2, h2)
 
+/-- a dict has one entry per key: keep the first (= current) entry of every key.  Only used for
+the dict that the PINNED call hands back to its caller, so that repeated calls do not pile up
+shadowed entries in the association list. -/
+def dedupEnv : Env → Env
+  | [] => []
+  | (k, v) :: r => (k, v) :: (dedupEnv r).filter (·.1 != k)
+
 /-- `_InlineFunction.__call__`: `context = copy(context)`; the dict is the caller's dict
 (pinned) or a copy of it (F05 repaired); `update(self.variables)`; parameters bound; body
 evaluated.  Returns the caller's dict as the caller sees it afterwards. -/
@@ -232,7 +239,7 @@ def applyFn (c : Cfg) (ps : List Name) (body : Expr) (cap : Env) (args : List Va
   if ps.length ≠ args.length then .error .type else
   match ev body (ps.zip args ++ (cap ++ ρ)) h with
   | .error e => .error e
-  | .ok (v, ρ', h') => .ok (v, if c.q.callCopies then ρ else ρ', h')
+  | .ok (v, ρ', h') => .ok (v, if c.q.callCopies then ρ else dedupEnv ρ', h')
 
 end
 
